@@ -12,7 +12,7 @@ TARGET_POOL = [b"ta:80", b"tb:80", b"tc:80", b"td:80", b"te:80", b"tf:80", b"tg:
                b"tk:80", b"tl:80", b"tm:80", b"tn:80", b"to:80", b"tp:80"]
 POINTS = ["req:routed", "req:gate-passed", "req:lb-picked", "req:claimed", "deploy:found", "deploy:healthy",
           "deploy:slot-updated", "deploy:installed", "drain:marked", "probe:applied", "pause:gate-set",
-          "snapshot:collected", "snapshot:created", "snapshot:written"]
+          "snapshot:collected", "snapshot:created", "snapshot:written", "snapshot:renamed"]
 
 
 class Gen:
@@ -232,6 +232,8 @@ def kind_term(e):
         return "KAtTarget %d %d" % (idn(a[0]), rid(a[1]))
     if k == "target-replied":
         return "KTargetReplied %d %d %d" % (idn(a[0]), rid(a[1]), a[2])
+    if k == "target-failed":
+        return "KTargetFailed %d %d %d" % (idn(a[0]), rid(a[1]), {"fault": 0, "draining": 1, "client": 2}[a[2]])
     if k == "routed":
         return "KRouted %d %s" % (rid(a[0]), opt_id(a[1]))
     if k == "svc-copy":
@@ -298,6 +300,8 @@ def kind_term(e):
         return "KSnapCreate"
     if k == "snap-write":
         return "KSnapWrite"
+    if k == "snap-rename":
+        return "KSnapRename"
     if k == "parked":
         return "KParked"
     if k == "released":
